@@ -71,3 +71,8 @@ CHECKS["C24"] = {"pkg": "net", "shards": 8,
     "technique": "model-based stateful property testing (rapid state machine) of daemon.Connections against a set-of-live-connections model",
     "text": "Generated operation sequences (attempt, connect, introduce, remove with right/wrong ids, remove-all) over 9 addresses on 3 IPs with mirrors {0,1,2} and listen ports {0,6000,6001}; after every step the five bookkeeping maps must equal what the model derives from the live set and each operation must succeed exactly when the model says the transition is legal; removing everything must leave all maps empty.",
     "note": "maps are observed through the verif hook VerifSnapshot; connection ids passed to connect are fresh (as gnet allocates them)"}
+
+CHECKS["C26"] = {"pkg": "net", "shards": 8,
+    "technique": "stateful property-based testing (rapid state machine) of pex.Pex with an independent address predicate and size/trust invariants; differential single-address validation",
+    "text": "Generated histories of AddPeer / AddPeers / RemovePeer / trust / retry / ageing+stale-pass over valid, whitespace-laden and hostile address strings; after every step all stored addresses must satisfy an independently written ip:port predicate, bulk additions must respect the bound, trusted peers must survive everything but explicit removal; single strings (pools + one-character edits) are judged valid/invalid against the same predicate.",
+    "note": "LastSeen is rewritten through the verif hook to exercise the time-dependent eviction rules; the predicate follows the definition of a global unicast IPv4 address (excluding unspecified, broadcast, multicast, link-local; loopback only when allowed)"}
